@@ -376,6 +376,23 @@ int vp_ghost_quiescent(void) {
   return 1;
 }
 
+// every kernel thread has gone through several idle iterations (load balance + run-queue pop + poll) since the last
+// switch/schedule event anywhere, and yet a run-queue entry or a pending wake-up exists: that entry will never run
+int vp_ghost_idle_but_queued(void) {
+  const uint64_t e = atomic_load(&g_epoch);
+  int i, mgrs = 0;
+  for (i = 0; i < VP_MAX_THREADS; ++i) {
+    if (!atomic_load(&g_thr[i].is_mgr)) continue;
+    ++mgrs;
+    if (atomic_load(&g_thr[i].seen_epoch) != e) return 0;
+    if (atomic_load(&g_thr[i].idle_iters) < 8) return 0;
+  }
+  if (mgrs < vp_cfg.threads) return 0;
+  if (atomic_load(&g_pending_total) == 0 && fiber_verif_runqueue_total() == 0) return 0;
+  if (atomic_load(&g_epoch) != e) return 0;
+  return 1;
+}
+
 void vp_ghost_dump(FILE* f, int max) {
   uint32_t i;
   int n = 0;
